@@ -127,6 +127,8 @@ impl WalHandle {
                                     shard_id, new_log_id = writer.current_log_id,
                                     "WAL log rotated"
                                 );
+                                #[cfg(sneldb_verif)]
+                                crate::verif::point("wal.rotated");
                             }
                         }
                     }
